@@ -22,7 +22,7 @@ RULE = ("models x N in 1..4 x every missing-data mask of the n_y x N panel x std
         "x data vector; distinct non-trivial = (model, N, mask, std setting, deviation, rescale, data)")
 MANIFEST_ENTRY = dict(level="exploration", design="DESIGN.md section 4 / C03",
     technique="bounded-exhaustive enumeration of all missing-data masks x configurations on generated state-space models; explicit joint-Gaussian stacking oracle (one linear solve per conditioning set)",
-    text="For 13 (quick) / 18 (thorough) solved stationary models (1-4 states, 1-2 observables, with/without measurement shocks, lagged state in the measurement equation, AR(2), coupled oscillating AR(2) pair with complex roots, forward-looking, log observable), every span length N<=3 (quick; N<=4 thorough) and EVERY missing-data mask of the n_y x N panel, under 3 std settings (incl. time-varying stds from data), deviation on/off, rescale_variance on/off and 2 dense data vectors, the filter's neg_log_likelihood (two entry points), per-period contributions (sum and each one, zero for empty periods), var_scale, predict/update/smooth means and variances of every variable and shock, prediction errors and prediction MSE matrices are compared with exact conditioning of the stacked joint normal law; a two-variant model on two-variant data must reproduce the two single-variant runs.",
+    text="For 13 (quick) / 18 (thorough) solved stationary models (1-4 states, 1-2 observables, with/without measurement shocks, lagged state in the measurement equation, AR(2), coupled oscillating AR(2) pair with complex roots, forward-looking, log observable), every span length N<=3 (quick; N<=4 thorough) and EVERY missing-data mask of the n_y x N panel, under 3 std settings (incl. time-varying stds from data), deviation on/off, rescale_variance on/off and 2 dense data vectors, the filter's neg_log_likelihood (two entry points), per-period contributions (sum and each one, zero for empty periods), var_scale, predict/update/smooth means and variances of every variable and shock, prediction errors and prediction MSE matrices are compared with exact conditioning of the stacked joint normal law; a two-variant model on two-variant data must reproduce the two single-variant runs (rescale_variance on/off).",
     note="Trusted: numpy linear algebra and ref/gauss.py; the solution matrices are taken from get_solution() (decided by C01). Standard deviations are compared as variances; shock stds that the implementation does not report (NaN) are pinned to the set measured on the unchanged tree. Unit-root models are covered under the default diffuse_method='fixed_unknown' only (oracle: GLS-concentrated likelihood in the coordinates of the reported triangular solution); approx_diffuse is not covered.")
 ASSUMPTIONS = ["the first-order solution matrices are correct (C01)", "initial condition = stationary law under the model's assigned stds; for unit roots: fixed unknown initial condition of the unit-root block of the reported triangular solution"]
 
@@ -360,35 +360,40 @@ def check_variants(spec, m, N, setting, dev, res, ctx):
             sig = {"setting": label, "deviation": dev, "log": spec.log, "ny": ny, "what": "variants"}
             sig.update(extra)
             res.violation(check, sig, case, "%s N=%d mask=%s: %s" % (spec.name, N, mask.astype(int).tolist(), detail))
-        try:
-            singles = [Filtered(spec, m, lev[0], mask, N, dev, False, None), Filtered(spec_b, m_b, lev[1], mask, N, dev, False, None)]
-            span = START >> (START + N - 1)
-            db = ir.Databox()
-            for i in range(ny):
-                cols = np.column_stack([np.where(mask[i], lev[k][i], np.nan) for k in range(2)])
-                db[spec.obs(i)] = ir.Series(start=START, values=cols)
-            with contextlib.redirect_stdout(io.StringIO()):
-                out2, info2 = m2.kalman_filter(db, span, return_info=True, deviation=dev)
-            res.ev(3)
-            res.nt((spec.name, N, label, dev, mask.tobytes(), "variants"))
-            res.count("variant_runs")
-            for k in range(2):
-                i2 = info2[k] if isinstance(info2, (list, tuple)) else info2
-                if not np.isclose(i2["neg_log_likelihood"], singles[k].info["neg_log_likelihood"], rtol=1e-9, atol=1e-9):
-                    bad("variant_mismatch", "variant %d: neg_log_likelihood %.12g, single-variant model %.12g" % (k, i2["neg_log_likelihood"], singles[k].info["neg_log_likelihood"]))
-                for key in keys:
-                    for n_ in singles[k].out[key].keys():
-                        a1 = singles[k].out[key][n_].get_data_from_until((START, START + N - 1))[:, 0]
-                        if n_ not in out2[key]:
-                            bad("variant_mismatch", "variant run lacks %s %s" % (key, n_))
-                            continue
-                        a2 = out2[key][n_].get_data_from_until((START, START + N - 1))
-                        col = a2[:, k] if a2.shape[1] > 1 else a2[:, 0]
-                        if not np.allclose(col, a1, rtol=1e-8, atol=1e-9, equal_nan=True):
-                            bad("variant_mismatch", "variant %d %s %s: two-variant run %s, single-variant model %s" % (k, key, n_, np.round(col, 8).tolist(), np.round(a1, 8).tolist()))
-                            break
-        except Exception as e:
-            bad("exception", "variants: %s: %s" % (type(e).__name__, str(e)[:300]), error=type(e).__name__)
+        for rescale in (False, True):
+            case = dict(case, rescale=rescale)
+            try:
+                singles = [Filtered(spec, m, lev[0], mask, N, dev, rescale, None), Filtered(spec_b, m_b, lev[1], mask, N, dev, rescale, None)]
+                span = START >> (START + N - 1)
+                db = ir.Databox()
+                for i in range(ny):
+                    cols = np.column_stack([np.where(mask[i], lev[k][i], np.nan) for k in range(2)])
+                    db[spec.obs(i)] = ir.Series(start=START, values=cols)
+                with contextlib.redirect_stdout(io.StringIO()):
+                    out2, info2 = m2.kalman_filter(db, span, return_info=True, deviation=dev, rescale_variance=rescale)
+                res.ev(3)
+                res.nt((spec.name, N, label, dev, mask.tobytes(), "variants", rescale))
+                res.count("variant_runs")
+                for k in range(2):
+                    i2 = info2[k] if isinstance(info2, (list, tuple)) else info2
+                    if not np.isclose(i2["neg_log_likelihood"], singles[k].info["neg_log_likelihood"], rtol=1e-9, atol=1e-9, equal_nan=True):
+                        # (both NaN: variance rescaling with no effective observation left, e.g. a single observation
+                        # absorbed by the unknown initial condition of a unit root - 0/0 in either run)
+                        bad("variant_mismatch", "variant %d: neg_log_likelihood %.12g, single-variant model %.12g" % (k, i2["neg_log_likelihood"], singles[k].info["neg_log_likelihood"]), rescale=rescale)
+                    for key in keys:
+                        for n_ in singles[k].out[key].keys():
+                            a1 = singles[k].out[key][n_].get_data_from_until((START, START + N - 1))[:, 0]
+                            if n_ not in out2[key]:
+                                bad("variant_mismatch", "variant run lacks %s %s" % (key, n_), rescale=rescale)
+                                continue
+                            a2 = out2[key][n_].get_data_from_until((START, START + N - 1))
+                            col = a2[:, k] if a2.shape[1] > 1 else a2[:, 0]
+                            if not np.allclose(col, a1, rtol=1e-8, atol=1e-9, equal_nan=True):
+                                bad("variant_mismatch", "variant %d %s %s (rescale_variance=%s): two-variant run %s, single-variant model %s"
+                                    % (k, key, n_, rescale, np.round(col, 8).tolist(), np.round(a1, 8).tolist()), rescale=rescale)
+                                break
+            except Exception as e:
+                bad("exception", "variants: %s: %s" % (type(e).__name__, str(e)[:300]), error=type(e).__name__, rescale=rescale)
 
 
 def shard(item, res, ctx):
@@ -416,7 +421,7 @@ def run(ctx, total, info):
     info["models"] = len(models(ctx.tier))
     info["floors"] = {"filter_calls": (total.evaluations, 8000), "mask_shapes": (len(total.classes.get("mask_shape", ())), 20),
                       "unit_root_cases": (total.counters.get("unit_root_cases", 0), 500),
-                      "variant_runs": (total.counters.get("variant_runs", 0), 200)}
+                      "variant_runs": (total.counters.get("variant_runs", 0), 400)}
     # the moments the implementation reports (finite cells) are pinned: none of these classes may disappear
     c = total.counters
     for key in ("predict_med_v", "predict_med_o", "predict_med_e", "predict_med_w", "update_med_v", "update_med_o", "update_med_e",
